@@ -184,7 +184,7 @@ def correspondence(ctx):
             continue
         flat = H.parse_pairs(r)
         got = [(flat[3 * i], flat[3 * i + 1], int(flat[3 * i + 2])) for i in range(len(flat) // 3)]
-        same = got == exp
+        same = H.same_numbers(got, exp)
         ctx.oblige(same, "correspondence", "model genQ/Multiplicity = real step-up/step-down with the real adjust (exact)",
                    f"model={got}\nreal ={exp}", case)
         ctx.sample({**case, "equal": same}, limit=3)
